@@ -368,10 +368,20 @@ SR = ScriptedRNG(0)
 
 
 def draw_for(k):
-    """deterministic (sigma, z) of node k: huge overshoots mostly, a few near the box."""
+    """deterministic (sigma, z) of node k: overshoots of hundreds to thousands of
+    widths mostly, every fifth draw near the box.  The generated Coq files contain
+    the same formula (XOF) -- it describes the input chosen, not an observation."""
     z = Fraction(((k * 7919 + 13) % 385) - 192, 64)
-    sigma = 1.0 if k % 5 == 0 else float(1 << 20)
+    sigma = 1.0 if k % 5 == 0 else 1024.0
     return sigma, z
+
+
+XOF = """Definition xof (i : nat) : Q :=
+  let k := Z.of_nat i in
+  let z64 := (((k * 7919 + 13) mod 385) - 192)%Z in
+  let sigma := if (k mod 5 =? 0)%Z then 1 else 1024 in
+  (3 # 2) + sigma * (Qmake z64 64).
+"""
 
 
 def observe_param(ops, k):
@@ -502,7 +512,8 @@ def observe_chain(ops, k):
             p.try_count = 0
             ch.take_step()
     for th, _ in post.evals[n0:]:
-        bad += h.check(th[1])
+        if th[1] != fr(S0):      # the start value predates the limits (parameter 0 is updated first)
+            bad += h.check(th[1])
     for v in p.samples[1:]:
         bad += h.check(fr(v))
     return obs, bad, len(post.evals) - n0
@@ -702,11 +713,23 @@ def reflect_float_check(r, n_cases):
 
 # ------------------------------------------------------------------ the run
 def run(rep: C.Report, tier: str) -> int:
+    import os
+    import sys
+    import time
+    t_last = [time.time()]
+    timing = {}
+
+    def lap(name):
+        timing[name] = round(time.time() - t_last[0], 2)
+        t_last[0] = time.time()
+        if os.environ.get("VERIF_TIMING"):
+            print(f"[C04 timing] {name}: {timing[name]}s", file=sys.stderr)
     big = tier == "thorough"
     C.clean_gen(PROP)
     C.prove_and_audit(rep, PROP, THEOREMS)
     files, meta = [], []        # meta[i] = (group, list of case keys)
 
+    lap('proofs+audit')
     # ---- A. Bounds.reflect / reflect_momenta
     r = C.rng_for(PROP, "reflect")
     rcases, rout, relems = [], [], []
@@ -732,7 +755,7 @@ def run(rep: C.Report, tier: str) -> int:
             rep.count("reflect/inside()-false")
         for j in range(len(case["lo"])):
             relems.append((k, j))
-    CH = 1500
+    CH = 1000
     for i in range(0, len(relems), CH):
         chunk = relems[i:i + CH]
         rows = []
@@ -745,6 +768,7 @@ def run(rep: C.Report, tier: str) -> int:
                                        ["failing check_reflect cases 0"]))
         meta.append(("reflect", chunk))
 
+    lap('reflect-impl')
     # ---- B. Parameter.boundary_proposal / abs_proposal
     r = C.rng_for(PROP, "proposals")
     pcases = {"bnd": [], "abs": []}
@@ -774,6 +798,7 @@ def run(rep: C.Report, tier: str) -> int:
                                            [f"failing {chk} cases 0"]))
             meta.append((which, list(range(i, min(i + 2000, len(rows))))))
 
+    lap('proposals-impl')
     # ---- C. bounded_leapfrog with a vanishing force
     r = C.rng_for(PROP, "leapfrog")
     lcases, lrows, lidx = [], [], []
@@ -793,13 +818,14 @@ def run(rep: C.Report, tier: str) -> int:
                                           C.cq(out["im"][j]), C.cnat(case["steps"]), C.cq(out["t0"][j]),
                                           C.cq(out["r0"][j]), C.cq(out["t"][j]), C.cq(out["r"][j])]) + ")")
             lidx.append(k)
-    for i in range(0, len(lrows), 800):
+    for i in range(0, len(lrows), 350):
         body = ("Definition cases : list (Q * Q * Q * Q * nat * Q * Q * Q * Q) :=\n "
-                + C.clist(lrows[i:i + 800], ";\n ") + ".")
-        files.append(C.write_case_file(PROP, f"leapfrog_{i // 800}", HEADER, body,
+                + C.clist(lrows[i:i + 350], ";\n ") + ".")
+        files.append(C.write_case_file(PROP, f"leapfrog_{i // 350}", HEADER, body,
                                        ["failing check_leapfrog cases 0"]))
-        meta.append(("leap", lidx[i:i + 800]))
+        meta.append(("leap", lidx[i:i + 350]))
 
+    lap('leapfrog-impl')
     # ---- D. selector: every call order up to length 5 on real Parameter objects
     AL = alphabet(tier)
     DEPTH = 5
@@ -827,6 +853,7 @@ def run(rep: C.Report, tier: str) -> int:
     sel_nodes = 0
     for fi, first in enumerate(AL):
         acc = []
+        node_k[0] = 0            # the draw of a node depends on its index within its file
         try:
             walk([first], 1, acc)
         except Exception as e:
@@ -834,20 +861,36 @@ def run(rep: C.Report, tier: str) -> int:
                           {"case": {"kind": "selector", "ops": ops_json(acc[-1][0] if acc else [first])}}, True)
             continue
         sel_nodes += len(acc)
-        rows = [coq_obs(o) if o[7] is not None else coq_obs(o[:7] + (Fraction(10 ** 30),)) for _, o in acc]
-        body = (al_coq + "\nDefinition observed : list obs :=\n " + C.clist(rows, ";\n ") + ".\n"
+        table, tindex, codes = [], {}, []
+        for ops, o in acc:
+            key = o[:6]
+            if key not in tindex:
+                tindex[key] = len(table)
+                table.append(key)
+            y64 = None if o[7] is None else o[7] * 64
+            if y64 is None or y64.denominator != 1:
+                codes += [-1, 0]                       # not representable: reported as a disagreement
+            else:
+                codes += [tindex[key], int(y64)]
+        trows = [f"({C.cbool(b)}, {C.cbool(nn)}, {C.cq(lo)}, {C.cq(hi)}, {C.cq(w)}, {C.cz(k)}%Z)"
+                 for (b, nn, lo, hi, w, k) in table]
+        chunks = [C.clist([C.cz(v) for v in codes[i:i + 400]]) + "%Z" for i in range(0, len(codes), 400)]
+        body = (al_coq + "\n" + XOF +
+                "Definition table : list obs_state :=\n " + C.clist(trows, ";\n ") + ".\n"
+                "Definition codes : list Z := concat\n " + C.clist(chunks, ";\n ") + ".\n"
                 f"Definition first_op : op := {coq_op(first)}.")
         files.append(C.write_case_file(
             PROP, f"selector_{fi}", HEADER, body,
-            [f"failing2 (check_state propose) (enum step AL {DEPTH - 1} (step init first_op)) observed 0",
-             f"failing2 (check_state propose_pinned) (enum step_pinned AL {DEPTH - 1} "
-             f"(step_pinned init first_op)) observed 0"]))
+            [f"failing_codes propose table xof (enum step AL {DEPTH - 1} (step init first_op)) codes 0",
+             f"failing_codes propose_pinned table xof (enum step_pinned AL {DEPTH - 1} "
+             f"(step_pinned init first_op)) codes 0"]))
         meta.append(("selector", [ops for ops, _ in acc]))
     rep.evaluations += sel_nodes
     rep.coverage["selector_call_orders_enumerated"] = sel_nodes
     rep.coverage["selector_distinct_states_reached"] = len(state_seen)
     rep.coverage["selector_alphabet"] = [coq_op(o) for o in AL]
 
+    lap('selector-impl')
     # ---- D'. the same through GibbsChain.set_boundaries / set_non_negative / save / load
     seqs = [[]]
     frontier = [[]]
@@ -881,6 +924,7 @@ def run(rep: C.Report, tier: str) -> int:
     rep.coverage["chain_selector_sequences"] = len(cops)
     rep.coverage["chain_selector_posterior_evaluations_checked_R"] = chain_evals
 
+    lap('chain-selector-impl')
     # ---- run Coq on everything
     outs = C.run_case_files(files, jobs=14, timeout=1500 if big else 600)
     n_checked = {}
@@ -912,6 +956,7 @@ def run(rep: C.Report, tier: str) -> int:
     rep.coverage["traces_validated_against_impl"] = n_checked
     rep.coverage["correspondence_disagreements"] = {"selector": len(sel_fail)}
 
+    lap('coq-case-files')
     # ---- selector disagreements: look for a concrete failing input
     if sel_fail or hist_bad:
         matches_pinned = sel_files_ok and not sel_fail_pinned
@@ -943,6 +988,7 @@ def run(rep: C.Report, tier: str) -> int:
                           {"theorem_or_correspondence": "Model.ProposalFSM.check_state (selector correspondence)",
                            "case": {"kind": "selector", "ops": ops_json(ops)}}, False)
 
+    lap('selector-search')
     # ---- E. run-time checks on the samplers [R]
     r = C.rng_for(PROP, "samplers")
     runs = {"gibbs": 10, "pca": 6, "hmc": 10, "ensemble": 6, "hmc_fd": 6}
@@ -975,6 +1021,8 @@ def run(rep: C.Report, tier: str) -> int:
         rep.violation("C04/reflect/float-outside", "Bounds.reflect leaves the limits by more than 4 ulp "
                       "on a non-dyadic input", {"case": rb[0]}, True)
 
+    lap('runtime-R')
+    rep.coverage['timing_s'] = timing
     rep.assumptions = [
         "exact comparisons use dyadic inputs on which every + - * // % of the code is exact in double precision",
         "Bounds.width = upper - lower is passed to the model as w (computed by the code, exact on the inputs used)",
